@@ -5,7 +5,11 @@ w.r.t. the inductive least-model semantics) run in the compiled driver, cross-ch
 Python SLD interpreter (harness/sld_util.py).  `ClauseIndex.find` (first-argument style indexing) is modelled exactly
 (lean/ProbLogModel/ClauseIndex.lean, the code after repo_patches/C13_clause_index.diff) and proved to return the
 matching clauses in program order; the real `ClauseIndex.find` is compared with the model on generated predicates and
-monitored at run time during every engine run."""
+monitored at run time during every engine run.
+
+Pinned regression corpus corpus/C13/dup_agree.json (tools/gen_c13_corpus.py): deterministic findall programs whose Prolog
+list contains duplicates and whose answer the tree reproduced exactly when the corpus was built; replayed first on every
+run, a changed outcome is a `corpus-regression` (not maskable by the known finding about collapsed duplicates)."""
 import json
 import re
 import time
@@ -297,6 +301,10 @@ def to_pl_call_arg(t):
     if isinstance(t, str):
         if re.fullmatch(r"-?[0-9]+", t):
             return Constant(int(t))
+        if re.fullmatch(r"-?[0-9]+\.[0-9]+", t):
+            return Constant(float(t))
+        if t.startswith('"'):
+            return Constant(t)      # string constants keep their quotes in problog
         return Term(t)
     return Term(t[1], *[to_pl_call_arg(a) for a in t[2]])
 
@@ -321,6 +329,72 @@ def index_lean_line(arity, heads, call):
 
 def sx_key(k):
     return "_" if k is None else k.replace("(", "<").replace(")", ">").replace(",", ";").replace(" ", "")
+
+
+# --------------------------------------------------------------------------------------------- pinned corpus
+def corpus_path():
+    import os
+    from lib import VERIF
+    return os.path.join(VERIF, "corpus", "C13", "dup_agree.json")
+
+
+def corpus_outcome(prog, q, limit=10.0, tries=2):
+    """(sld, problog answers | 'raises X', index problems) or None when the case cannot be decided now (reference out
+    of fuel, engine slower than `limit` seconds on every try: cost, never a failure)."""
+    sld = spec_answers(prog, q)
+    if isinstance(sld, str):
+        return None
+    for _ in range(tries):
+        try:
+            pb, problems = run_problog(prog, q, limit=limit)
+            return sld, pb, problems
+        except Timeout:
+            continue
+        except Infra:
+            raise
+        except Exception as e:  # noqa
+            return sld, "raises " + type(e).__name__, None
+    return None
+
+
+def corpus_replay(ctx, items, budget_s):
+    """Pinned regression corpus (tools/gen_c13_corpus.py): deterministic findall programs whose Prolog lists contain
+    duplicates and whose answer the tree reproduced EXACTLY when the corpus was built. They lie inside the region of known
+    finding C13-findall-duplicates-collapsed, so a changed outcome is reported as a corpus-regression, which no finding
+    matches. Only the first regression is reported (shortest program text first among the ones seen)."""
+    t0 = time.time()
+    nok = nskip = 0
+    bad = []
+    for c in items:
+        if time.time() - t0 > budget_s:
+            nskip += 1
+            continue
+        prog, q = [fromjson(x) for x in c["program"]], fromjson(c["query"])
+        r = corpus_outcome(prog, q)
+        if r is None:
+            nskip += 1
+            continue
+        sld, pb, problems = r
+        ctx.case("corpus:" + c["text"] + "?" + U.pl_term(q), nontrivial=True)
+        if pb == sld and not problems:
+            nok += 1
+            continue
+        bad.append((len(c["text"]), c, sld, pb, problems))
+        if len(bad) >= 5:
+            break
+    ctx.count("corpus programs (Prolog list has duplicates, still exactly Prolog's answer)", nok)
+    if nskip:
+        ctx.count("corpus programs skipped (time)", nskip)
+    if bad:
+        _, c, sld, pb, problems = min(bad, key=lambda b: b[0])
+        got = pb if isinstance(pb, str) else [U.pl_term(x) for x in pb]
+        ctx.fail("corpus program (Prolog's list has duplicates; problog gave exactly Prolog's answer when the corpus was "
+                 "built): program `%s` query %s: problog %s, Prolog (SLD) %s" % (
+                     c["text"].replace("\n", " "), U.pl_term(fromjson(c["query"])), problems[0] if problems else got,
+                     [U.pl_term(x) for x in sld]),
+                 {"family": "corpus", "program": c["program"], "query": c["query"], "text": c["text"], "source": c.get("source")},
+                 {"kind": "corpus-regression"})
+    return nok
 
 
 # --------------------------------------------------------------------------------------------- the check
@@ -410,7 +484,11 @@ def run(ctx):
 
     if ctx.replay_in:
         rp = json.load(open(ctx.replay_in))["replay"]
-        if rp.get("family") == "index":
+        if rp.get("family") == "corpus":
+            corpus_replay(ctx, [rp], 60)
+            index_cases = []
+            progs = []
+        elif rp.get("family") == "index":
             index_cases = [(rp["arity"], [tuple(fromjson(h)) for h in rp["heads"]], [tuple(fromjson(c)) for c in rp["calls"]])]
             progs = []
         else:
@@ -420,6 +498,10 @@ def run(ctx):
             handle(fam, prog, q)
         flush()
     else:
+        # ---- pinned regression corpus, replayed first
+        import os
+        if os.path.exists(corpus_path()):
+            corpus_replay(ctx, json.load(open(corpus_path())), ctx.budget(20, 60))
         # ---- findall family
         rng = ctx.sub_rng("findall")
         for _ in range(ctx.budget(450, 10000)):
